@@ -33,7 +33,7 @@ def suspend_part(ctx):
                    configs=[(0, 0, NONEC, NONEP), (1, 1, NONEC, NONEP)], budget=(1 if ctx.quick else None))
     rng = random.Random(ctx.seed + 77)
     names = ["m04_waits_retries", "m05_callbacks", "m12_park_then_decide", "m13_park_then_finish", "m14_park_then_fail",
-             "m15_timed_and_indef", "m08_nested", "m02_first_successful"]
+             "m15_timed_and_indef", "m08_nested", "m02_first_successful", "m18_invoke_in_branch", "m19_invoke_and_wait"]
     progs = [CURATED_CONC[n] for n in names] + [gen_conc_program(rng) for _ in range(6 if ctx.quick else 80)]
     items = [(p, conc_scenario(rng, p)) for p in progs for _ in range(5 if ctx.quick else 14)]
     # timing sweep: a branch parked on a 1 s timer is resumed in-process while its sibling's function ends (or the sibling
